@@ -384,6 +384,36 @@ def run(ctx):
            key="R16.9:%s" % (bad9[0]["pair"].split(":")[0].split(" ")[0] if bad9 else ""),
            what="%s" % ("; ".join("%s: eq=%s cmp=%s (expected eq=%s, sign %s)" % (b_["pair"], b_["eq"], b_["cmp"], b_["expected"]["eq"], b_["expected"]["cmp_sign"]) for b_ in bad9[:3])))
 
+    # ---- R16.11: the two sides of a comparison live in two buffers
+    ctx.rule("R16.11", "TWO-BUFFERS: rtosc_arg_val_itr_get writes an element that a range computes into the one-slot buffer its caller hands it and returns that buffer; where a function walks two lists side by side, "
+             "the two iterators are handed different buffers - with one shared buffer both calls return the same pointer inside two arithmetic ranges, and the element is compared with itself")
+    n11 = 0
+    for un11 in (UNIT, "savefile.cpp"):
+        uu11 = ctx.ast(un11)
+        for q11, fl11 in sorted(uu11.functions.items()):
+            for f11 in fl11:
+                if uu11.body(f11) is None or not (A.loc(f11)[0] or "").endswith(un11):
+                    continue
+                gets11 = [c_ for c_ in A.calls_in(uu11.body(f11), "rtosc_arg_val_itr_get") if len(A.kids(c_)) == 3]
+                pairs11 = {}
+                for c_ in gets11:
+                    it_, bf_ = A.strip_casts(A.kids(c_)[1]), A.strip_casts(A.kids(c_)[2])
+                    iid = A.ref_id(A.kids(it_)[0]) if it_.get("kind") == "UnaryOperator" and it_.get("opcode") == "&" else A.ref_id(it_)
+                    bid = A.ref_id(A.kids(bf_)[0]) if bf_.get("kind") == "UnaryOperator" and bf_.get("opcode") == "&" else A.ref_id(bf_)
+                    if iid is None or bid is None:
+                        continue
+                    pairs11.setdefault(bid, set()).add(iid)
+                if len({i_ for s_ in pairs11.values() for i_ in s_}) < 2:
+                    continue
+                n11 += 1
+                shared = {b_: sorted(i_) for b_, i_ in pairs11.items() if len(i_) > 1}
+                ctx.ob("R16.11", q11, not shared, site=A.where(f11), detail={"iterators": len({i_ for s_ in pairs11.values() for i_ in s_}), "buffers": len(pairs11),
+                                                                              "buffers_shared_by_two_iterators": [uu11.by_id[b_].get("name") for b_ in shared]},
+                       key="R16.11:%s" % q11,
+                       what="%s hands the buffer `%s` to rtosc_arg_val_itr_get for two different iterators: inside two arithmetic ranges both calls return that one buffer, the second computed element overwrites the first and the element is compared with itself (1 2 3 equals 1 3 5)" % (
+                           q11, ", ".join(uu11.by_id[b_].get("name") or "?" for b_ in shared)))
+    ctx.require(n11 >= 2, "R16.11: only %d functions that walk two lists side by side were found" % n11)
+
     # ---- R16.10: the element of an arithmetic range, in the width of its type
     ctx.rule("R16.10", "RANGE-ELEMENT: rtosc_arg_val_range_arg - what the range-aware iterator hands out for the i-th element of `start, delta` - evaluated as a whole function (the arithmetic helpers of arg-val-math.c in place) on 'i' and 'h' ranges "
              "whose start, step and products need the full width of the type, is start + i*delta in that type's arithmetic (64 bits for 'h'): a compressed list compares and expands like the list it stands for")
